@@ -191,6 +191,19 @@ def _coercion_grid(ctx, rep, base, model_rows):
                         else:
                             sig = f"C11:value-altered:{ty}:{cls}"
                         rep.violate(sig, f"{ty} column ← {v!r} accepted and stored as {got!r}", case)
+                    elif ty in ("int", "long", "float", "double") and v is not None and rows:
+                        # no accepted append may make later scans mis-filter: the file now holds {first value, v}
+                        first = [r for r in tablekit.load(p).scan() if r["k"] == 0][0]["v"]
+                        t.append_records([{"k": 2, "v": vals[0][1]}, {"k": 3, "v": v}])      # and both in ONE file
+                        for op, want in (("!=", [1, 3] if got != first else []), ("==", sorted([0, 2] + ([1, 3] if got == first else [])))):
+                            try:
+                                ks = sorted(r["k"] for r in tablekit.load(p).scan(filter={"v": (op, first)}))
+                            except Exception as e:      # noqa: BLE001
+                                ks = f"raise {type(e).__name__}"
+                            rep.evaluations += 1
+                            if ks != want:
+                                rep.violate("C11:accepted-append-mis-filters:value", f"{ty} column holding [{first!r}, {got!r}]: scan(filter v {op} {first!r}) "
+                                            f"returns rows k={ks}, expected k={want}", case)
                 shutil.rmtree(p, ignore_errors=True)
 
 
@@ -310,12 +323,87 @@ def _record_validation(ctx, rep, base, model_rows):
         shutil.rmtree(p, ignore_errors=True)
 
 
+def _prebuilt_files(ctx, rep, base, model_rows):
+    """the file-level append API: a parquet file built outside the library, of every footer-schema variant"""
+    import pyarrow as pa
+    import pyarrow.parquet as pq
+    from datashard import Schema, create_table, load_table
+    from datashard.data_structures import DataFile, FileFormat
+    fields = [{"id": 1, "name": "a", "type": "long", "required": True}, {"id": 2, "name": "b", "type": "string", "required": False}]
+    variants = {
+        "exact": pa.schema([pa.field("a", pa.int64(), nullable=False), pa.field("b", pa.string(), nullable=True)]),
+        "all-nullable": pa.schema([pa.field("a", pa.int64()), pa.field("b", pa.string())]),
+        "all-required": pa.schema([pa.field("a", pa.int64(), nullable=False), pa.field("b", pa.string(), nullable=False)]),
+        "reordered": pa.schema([pa.field("b", pa.string(), nullable=True), pa.field("a", pa.int64(), nullable=False)]),
+        "narrower-int": pa.schema([pa.field("a", pa.int32(), nullable=False), pa.field("b", pa.string(), nullable=True)]),
+        "large-string": pa.schema([pa.field("a", pa.int64(), nullable=False), pa.field("b", pa.large_string(), nullable=True)]),
+        "extra-column": pa.schema([pa.field("a", pa.int64(), nullable=False), pa.field("b", pa.string(), nullable=True), pa.field("c", pa.int64())]),
+        "missing-column": pa.schema([pa.field("a", pa.int64(), nullable=False)]),
+        "renamed": pa.schema([pa.field("a", pa.int64(), nullable=False), pa.field("B", pa.string(), nullable=True)]),
+    }
+    i = 0
+    for name, sch in variants.items():
+        for api in ("table.append_data", "tx.append_files"):
+            for handle in ("reused", "fresh"):
+                i += 1
+                p = os.path.join(base, f"f{i}")
+                t = create_table(p, Schema(schema_id=1, fields=fields))
+                t.append_records([{"a": 1, "b": "x"}])
+                cols = {"a": [2, 3], "b": ["y", "z"], "B": ["y", "z"], "c": [7, 8]}
+                tab = pa.table({f.name: cols[f.name] for f in sch}, schema=sch)
+                os.makedirs(os.path.join(p, "data"), exist_ok=True)
+                fp = os.path.join(p, "data", "prebuilt.parquet")
+                pq.write_table(tab, fp)
+                df = DataFile(file_path="/data/prebuilt.parquet", file_format=FileFormat.PARQUET, partition_values={}, record_count=2,
+                              file_size_in_bytes=os.path.getsize(fp))
+                h = t if handle == "reused" else load_table(p)
+                before = _state(p)
+                case = {"kind": "prebuilt-file", "footer": name, "api": api, "handle": handle}
+                rep.evaluations += 1
+                rep.nontrivial(["prebuilt", name, api, handle])
+                try:
+                    if api == "table.append_data":
+                        ok = h.append_data([df])
+                    else:
+                        with h.new_transaction() as tx:
+                            tx.append_files([df])
+                            ok = tx.commit()
+                    accepted = ok is not False
+                except Exception:       # noqa: BLE001
+                    accepted = False
+                rep.distribution[f"prebuilt:{name}:{'accept' if accepted else 'reject'}"] += 1
+                if not accepted:
+                    after = _state(p)
+                    if (after[0], after[1]) != (before[0], before[1]) or not set(before[2]) <= set(after[2]):
+                        rep.violate("C11:rejected-append-left-a-trace", f"pre-built file ({name}) rejected, yet snapshots / rows changed", case)
+                    continue
+                expect = [(1, "x"), (2, "y"), (3, "z")]
+                for label, hh in (("same-handle", h), ("fresh-handle", load_table(p))):
+                    probes = [(None, expect), ({"a": ("==", 2)}, [(2, "y")]), ({"b": ("==", "z")}, [(3, "z")]), ({"a": (">", 1)}, [(2, "y"), (3, "z")])]
+                    for flt, want in probes:
+                        try:
+                            got = sorted((r["a"], r["b"]) for r in hh.scan(filter=flt))
+                        except Exception as e:      # noqa: BLE001
+                            rep.violate("C11:accepted-file-makes-scan-fail", f"pre-built file with footer '{name}' accepted via {api}; {label} "
+                                        f"scan(filter={flt}) raises {type(e).__name__}: {str(e)[:80]}", case)
+                            break
+                        if got != want:
+                            rep.violate("C11:accepted-file-not-exact", f"pre-built file with footer '{name}' accepted; {label} scan(filter={flt}) returns {got}", case)
+                            break
+                    else:
+                        continue
+                    break
+                shutil.rmtree(p, ignore_errors=True)
+
+
 def run(ctx, model_ok):
     rep = Report()
     rep.rule = ("the whole grid: 11 column types × 4–13 value classes (boundary ints, integral / fractional floats and decimals into integer "
                 "columns, ±0, NaN / inf, float32 overflow and subnormal, > 2^53, unicode, NUL, bytes, wrong Python types, tz-aware datetimes, "
                 "datetime into date) × optional / required; 10 schema-argument variants × fresh / reused handle × schema id 1 / 9, each followed by "
-                "full and per-column filtered scans through the same and a fresh handle; 8 record-shape cases in a two-record batch.")
+                "full and per-column filtered scans through the same and a fresh handle; 8 record-shape cases in a two-record batch; pre-built "
+                "parquet files of 9 footer-schema variants (exact, all-nullable, all-required, reordered, narrower int, large_string, extra / "
+                "missing / renamed column) × both file-level append APIs × fresh / reused handle, followed by full and filtered scans.")
     base = scratch_dir("c11-")
     rows = []
     try:
@@ -323,6 +411,7 @@ def run(ctx, model_ok):
         _schema_args(ctx, rep, base, rows)
         _record_validation(ctx, rep, base, rows)
         _arrow_layer(ctx, rep, base, rows)
+        _prebuilt_files(ctx, rep, base, rows)
         rep.exhaustive = True
         if model_ok and rows:
             seen = {}
